@@ -327,6 +327,92 @@ class Gen:
         augment(s, 'FileSearcher._run_mp', "self.stats['jobs_completed']",
                 'jobs_completed_increment', {})
 
+        def loop_variant(rel, qual, var, name):
+            """ the single `while` loop of a function, controlled by the
+            counter `var`: emits <name>_continues v (may another iteration
+            start with counter value v, as far as the counter is concerned)
+            and <name>_next v (the counter after one iteration).  Requires:
+            exactly one while loop; inside it exactly one store to `var`,
+            an unconditional top-level `var -= <const>`; the loop test is
+            either a comparison on `var` alone or `True`, in which case a
+            top-level `if <comparison on var>: break` must follow the
+            decrement. """
+            def go():
+                f = find_def(self.tree(rel), qual)
+                loops = [n for n in ast.walk(f) if isinstance(n, ast.While)]
+                if len(loops) != 1:
+                    raise Untranslatable(f"{qual}: expected one while loop")
+                lp = loops[0]
+                stores = [n for n in ast.walk(lp)
+                          if isinstance(n, ast.Name) and n.id == var
+                          and isinstance(n.ctx, ast.Store)]
+                decs = [n for n in lp.body if isinstance(n, ast.AugAssign)
+                        and isinstance(n.target, ast.Name)
+                        and n.target.id == var]
+                if not decs:
+                    # `try: ...; break  except X: ...; var -= c`: an
+                    # iteration either leaves the loop or decrements
+                    for st in lp.body:
+                        if isinstance(st, ast.Try) and st.body and \
+                                isinstance(st.body[-1], ast.Break) and \
+                                len(st.handlers) == 1 and not st.orelse \
+                                and not st.finalbody:
+                            decs = [n for n in st.handlers[0].body
+                                    if isinstance(n, ast.AugAssign)
+                                    and isinstance(n.target, ast.Name)
+                                    and n.target.id == var]
+                if len(stores) != 1 or len(decs) != 1:
+                    raise Untranslatable(f"{qual}: `{var}` must be written "
+                                         "exactly once in the loop, by a "
+                                         "top-level augmented assignment")
+                tr = Tr(names={var: 'v'})
+                fake = ast.BinOp(left=ast.Name(id=var, ctx=ast.Load()),
+                                 op=decs[0].op, right=decs[0].value)
+                ast.copy_location(fake, decs[0])
+                nxt, ty = tr.expr(fake)
+                assert ty == 'Z'
+                names_in_test = {n.id for n in ast.walk(lp.test)
+                                 if isinstance(n, ast.Name)}
+                if isinstance(lp.test, ast.Constant) and lp.test.value is True:
+                    idx = lp.body.index(decs[0])
+                    brk = [n for n in lp.body[idx + 1:]
+                           if isinstance(n, ast.If) and len(n.body) == 1
+                           and isinstance(n.body[0], ast.Break)
+                           and not n.orelse
+                           and {m.id for m in ast.walk(n.test)
+                                if isinstance(m, ast.Name)} == {var}]
+                    if len(brk) != 1:
+                        raise Untranslatable(f"{qual}: `while True` needs a "
+                                             f"top-level `if <{var}..>: break`"
+                                             " after the decrement")
+                    # continues(v): with counter v at loop top, the body
+                    # decrements and does not break
+                    tr2 = Tr(names={var: f"({nxt})"})
+                    c = tr2.cond(brk[0].test)
+                    cont = f"(negb {c})"
+                    src = f"while True: ... {ast.unparse(decs[0])} ... " \
+                          f"{ast.unparse(brk[0])}"
+                elif names_in_test == {var}:
+                    cont = Tr(names={var: 'v'}).cond(lp.test)
+                    src = f"while {ast.unparse(lp.test)}: ... " \
+                          f"{ast.unparse(decs[0])}"
+                else:
+                    raise Untranslatable(f"{qual}: loop test must depend on "
+                                         f"`{var}` only")
+                self.exprs.append((name + '_continues', ['v'], 'Z', cont,
+                                   'bool', src))
+                self.exprs.append((name + '_next', ['v'], 'Z', nxt, 'Z',
+                                   ast.unparse(decs[0])))
+            self.item(name, go)
+        loop_variant(c, 'LogFileDateSinceSeeker.find_token', 'attempts',
+                     'loop_find_token')
+        loop_variant(c, 'LogFileDateSinceSeeker.find_token_reverse',
+                     'attempts', 'loop_find_token_reverse')
+        loop_variant(c, 'LogFileDateSinceSeeker.try_find_line_with_date',
+                     'attempts', 'loop_tfld')
+        loop_variant(t, 'SearchTask.put_result', 'max_tries',
+                     'loop_put_result')
+
     # ---- output
     def params_v(self):
         out = ["(* GENERATED from the repository working tree by "
